@@ -1,9 +1,11 @@
 (* Property C06: leg fusion is a lossless, consistently ordered bijection.
-   Only statements; every proof is `exact <lemma of Proofs/LegP.v, Proofs/PipeP.v, Proofs/PipeP2.v, Proofs/PipeP3.v>`.
+   Only statements; every proof is `exact <lemma of Proofs/LegP.v, Proofs/PipeP.v, Proofs/PipeP2.v, Proofs/PipeP3.v,
+   Proofs/PipeOpsP.v>`.
    Models: Model/ChargeL.v (make_valid), Model/Leg.v (LegCharge), Model/Pipe.v (LegPipe),
-   Model/PipeMaps.v (take_flat, tiles, qmap_rows_of, qm_group/qm_blocks, combine_fn/split_fn). *)
-From TenpyV Require Import Base.Prelude Model.ChargeL Model.Leg Model.Pipe Model.PipeMaps
-  Proofs.LegP Proofs.PipeP Proofs.PipeP2 Proofs.PipeP3.
+   Model/PipeMaps.v (take_flat, tiles, qmap_rows_of, qm_group/qm_blocks, combine_fn/split_fn),
+   Model/PipeOps.v (flip_charges_qconj / outer_conj of a LegPipe). *)
+From TenpyV Require Import Base.Prelude Model.ChargeL Model.Leg Model.Pipe Model.PipeMaps Model.PipeOps
+  Proofs.LegP Proofs.PipeP Proofs.PipeP2 Proofs.PipeP3 Proofs.PipeOpsP.
 Open Scope Z_scope.
 
 (* map_incoming_flat is a bijection between the index tuples prod_l [0, ind_len_l) and [0, prod_l ind_len_l),
@@ -156,6 +158,24 @@ Proof. intros ci l. exact (conj (flip_equal ci l) (flip_blocks ci l)). Qed.
 Theorem T06_conj_contractible : forall ci l, contractible ci l (conj_leg l) = true.
 Proof. exact conj_contractible. Qed.
 
+(* flip_charges_qconj applied to a LegPipe (the method is inherited from LegCharge; LegPipe.outer_conj has the same
+   discrete content): the result is a pipe over the SAME incoming legs (same directions), with the opposite direction
+   of the outgoing leg and negated outgoing charges; q_map, q_map_slices, the block sizes and map_incoming_flat on
+   every index tuple are the ones of the original pipe; the outgoing leg passes test_equal with the original one; and
+   the pipe contract holds for the new direction: the outgoing block of every index tuple carries
+   make_valid(-qconj * sum_l qconj_l * charge_l(i_l)).  (A flip that also conjugated the incoming legs, as
+   LegPipe.conj does, would need the charges make_valid(+qconj * sum ...) here.) *)
+Theorem T06_flip_pipe : forall ci legs qconj srt bun t, legs_ok legs -> idx_ok legs t ->
+  let p := pipe_init ci legs qconj srt bun in
+  let f := flip_pipe ci p in
+  p_legs f = legs /\ p_qconj f = - qconj /\ p_qmap f = p_qmap p /\ p_qmap_slices f = p_qmap_slices p /\
+  map fst (p_blocks f) = map fst (p_blocks p) /\
+  leg_equal ci (pipe_leg p) (pipe_leg f) = true /\
+  map_incoming_flat f t = map_incoming_flat p t /\
+  exists qs ws I, split_indices legs t = Some (qs, ws) /\ block_of f t = Some I /\
+    nth I (map snd (p_blocks f)) [] = make_valid ci (vscale (- qconj) (vsum (length ci) (tuple_charges legs qs))).
+Proof. exact flip_pipe_spec. Qed.
+
 (* non-vacuity: a pipe of two legs (a block of size 0, equal fused charges from different tuples, Z_3 x U(1)) *)
 Definition ex_legs : list leg :=
   [mkLeg [(1, [0; 1]); (2, [1; 0]); (0, [0; 1])] 1; mkLeg [(2, [2; 1]); (1, [1; 0])] (-1)].
@@ -208,6 +228,14 @@ Example T06_example_sort :
   qflat (snd (sort_leg true ex_leg)) = [[0]; [0]; [0]; [1]; [1]; [1]].
 Proof. split; [repeat constructor; cbn; lia|]. vm_compute. repeat split. Qed.
 
+(* the flipped pipe of that example: same index map, negated (reduced) outgoing charges, direction +1 *)
+Example T06_example_flip_pipe :
+  let p := pipe_init [3; 1] ex_legs (-1) true true in
+  let f := flip_pipe [3; 1] p in
+  map (map_incoming_flat f) (zgrid [3; 3]) = map Some [3; 4; 0; 5; 6; 1; 7; 8; 2] /\
+  map snd (p_blocks f) = [[2; 1]; [0; 0]; [1; 0]; [2; -1]] /\ p_qconj f = 1 /\ p_legs f = ex_legs.
+Proof. vm_compute. repeat split. Qed.
+
 Print Assumptions T06_flat_bijection.
 Print Assumptions T06_fusion_rule.
 Print Assumptions T06_qmap_shape.
@@ -224,3 +252,4 @@ Print Assumptions T06_bunch.
 Print Assumptions T06_project.
 Print Assumptions T06_flip_charges_qconj.
 Print Assumptions T06_conj_contractible.
+Print Assumptions T06_flip_pipe.
